@@ -18,7 +18,7 @@ PROPERTY ObjectsNeverVanish
 TRACE_CFG = """CONSTANTS
   Vars = {"x", "y", "z"}
   NAtoms = 7
-  Bases = {"CH4", "H2O", "Fe3O4", "D2O18", "hydrate", "half", "H"}
+  Bases = {"CH4", "H2O", "Fe3O4", "D2O18", "hydrate", "zero", "half", "H"}
   Mults = {"0", "0.5", "1", "2", "3", "1.5", "0.25"}
   MaxObjs = 99
   MaxDepth = 99
@@ -46,8 +46,31 @@ def gen(ctx, name, vars_, bases, mults, depth, simulate=None):
     return list(hs.values())
 
 
+def pick_twins(uni, rng):
+    """7 atoms in which atoms of one element differ only in isotope: X[a1]{q} / X[a2]{q} (or X{q}) in the places of
+    Fe{2+} / Fe{3+}, an isotope of the third element in the place of O[18]."""
+    eb, isos = uni["eb"], uni["isos"]
+    while True:
+        els = rng.sample([a for a in uni["el"] if a.z != 1], 3)
+        if not isos.get(els[2].z):
+            continue
+        zs = [z for z in eb if eb[z][2] and len(isos.get(z, [])) >= 2 and z not in [e.z for e in els] and z != 1]
+        z = rng.choice(zs)
+        q = rng.choice(list(eb[z][2]))
+        a1, a2 = rng.sample(isos[z], 2)
+        if rng.random() < 0.4:
+            a2 = 0
+        ion1, ion2 = atomsmod.Atom(eb[z][1], z, a1, q), atomsmod.Atom(eb[z][1], z, a2, q)
+        iso = atomsmod.Atom(els[2].sym, els[2].z, rng.choice(isos[els[2].z]))
+        al = rng.choice(uni["alias"])
+        ats = els + [ion1, ion2, iso, al]
+        return [[a.z, a.a, a.q, a.render()] for a in ats]
+
+
 def pick_atoms(uni, rng):
     """7 atoms of the right kinds: 3 distinct elements, two ions of one element, an isotope, D or T."""
+    if rng.random() < 0.35:
+        return pick_twins(uni, rng)
     eb, isos = uni["eb"], uni["isos"]
     els = rng.sample([a for a in uni["el"]], 3)
     z = rng.choice([z for z in eb if len(eb[z][2]) >= 2 and z not in [e.z for e in els]])
@@ -58,6 +81,8 @@ def pick_atoms(uni, rng):
     while iso.z in [e.z for e in els] + [z]:
         iso = rng.choice(uni[kind])
     al = rng.choice(uni["alias"])
+    while al.key() == iso.key():          # H[2]{+} and D{+} are one atom: the seven must be distinct
+        al = rng.choice(uni["alias"])
     while 1 in [e.z for e in els]:
         els = rng.sample([a for a in uni["el"]], 3)
     ats = els + [ion1, ion2, iso, al]
@@ -73,7 +98,7 @@ def run(ctx):
     if quick:
         hs = hs[:3000]
     deep = gen(ctx, "simulate depth 7 (3 variables, all bases)", ["x", "y", "z"],
-               ["CH4", "H2O", "Fe3O4", "D2O18", "hydrate", "half", "H"], ["0", "0.5", "1", "2", "3", "1.5", "0.25"], 7,
+               ["CH4", "H2O", "Fe3O4", "D2O18", "hydrate", "zero", "half", "H"], ["0", "0.5", "1", "2", "3", "1.5", "0.25"], 7,
                simulate=(5 if quick else 100))
     rng.shuffle(deep)
     hs += deep[:(1500 if quick else 30000)]
